@@ -27,9 +27,42 @@ def main():
             i += 1
         i += 1
     seed = int(os.environ.get("VERIF_SEED", "20260921"))
-    mod = importlib.import_module(prop.lower())
     t0 = time.time()
-    rc = mod.main(tier, seed, replay)
+    if os.environ.get("VERIF_CHILD") != "1":
+        # the property check runs in a child process: if the code under test takes the interpreter down (segmentation
+        # fault inside Z3, unbounded recursion, os._exit) the check still ends with a VIOLATION line and a replay file
+        import json
+        import subprocess
+        env = dict(os.environ, VERIF_CHILD="1")
+        p = subprocess.run([sys.executable, os.path.abspath(__file__)] + args, env=env)
+        rc = p.returncode
+        if rc not in (0, 1):
+            from common import REPLAYS
+            os.makedirs(REPLAYS, exist_ok=True)
+            path = os.path.join(REPLAYS, "%s-%s-crash.json" % (prop, tier))
+            json.dump({"property": prop, "seed": seed, "tier": tier,
+                       "broken": "the check process ended abnormally (exit status %d%s) while driving the implementation" % (
+                           rc, ", killed by signal %d" % -rc if rc < 0 else ""),
+                       "note": "the correspondence can no longer be run; no failing input was isolated"}, open(path, "w"), indent=1)
+            print("VIOLATION property=%s replay=%s no-failing-input-found" % (prop, path), flush=True)
+            rc = 1
+        return rc
+    mod = importlib.import_module(prop.lower())
+    try:
+        rc = mod.main(tier, seed, replay)
+    except Exception:  # noqa -- the implementation raised where the harness does not expect it
+        import json
+        import traceback
+        from common import REPLAYS
+        tb = traceback.format_exc()
+        print(tb)
+        os.makedirs(REPLAYS, exist_ok=True)
+        path = os.path.join(REPLAYS, "%s-%s-exception.json" % (prop, tier))
+        json.dump({"property": prop, "seed": seed, "tier": tier, "broken": "the check raised while driving the implementation",
+                   "traceback": tb[-3000:], "note": "the correspondence can no longer be run; no failing input was isolated"},
+                  open(path, "w"), indent=1)
+        print("VIOLATION property=%s replay=%s no-failing-input-found" % (prop, path), flush=True)
+        rc = 1
     print("[%s %s] exit %d in %.1fs" % (prop, tier, rc, time.time() - t0))
     return rc
 
